@@ -1,6 +1,8 @@
 import Driver.Common
 import Rpki.Model.CertDer
 import Rpki.Model.CmsDer
+import Rpki.Model.CrlDer
+import Rpki.Model.SigMsgDer
 /-! the canonical one-line rendering of a decoded certificate shared by the `certd` ops (C04, C01, C05);
 the harness prints the same line from the library's accessors (`harness/src/certd.rs`) -/
 namespace Driver.CertShow
@@ -48,5 +50,29 @@ def cmsLine (ty : String) (b : List Nat) : String :=
     | none => "err"
     | some o => s!"ok {hexN o.contentType} {hexN o.content} {civilToEpoch o.signingTime} | {showDecoded o.cert}"
   s!"{typed} {so}"
+
+/-- `crld <hex>` -/
+def crlLine (b : List Nat) : String :=
+  match Rpki.CrlDer.decodeCrl b with
+  | none => "err"
+  | some d =>
+    match Rpki.Crl.entries d.revoked with
+    | none => "iter-fails"
+    | some es =>
+      let items := es.map fun e => s!"{hexN e.serial}@{civilToEpoch e.date}"
+      s!"ok {hexN d.issuer} {civilToEpoch d.thisUpdate} {civilToEpoch d.nextUpdate} {hexN d.aki} {hexN d.number} {es.length} {if items.isEmpty then "-" else ",".intercalate items}"
+
+/-- `idcd <hex>` -/
+def idcLine (b : List Nat) : String :=
+  match Rpki.SigMsgDer.decodeIdCert b with
+  | none => "err"
+  | some d =>
+    s!"ok {hexN d.serial} {hexN d.subject} {d.validity.nb} {d.validity.na} {if d.keyAlg == .rsa then "r" else "e"} {hexN (Rpki.Sha.sha1N d.keyBits)} {hexN d.ski} {optHex d.aki}"
+
+/-- `smsgd <hex>` -/
+def smsgLine (b : List Nat) : String :=
+  match Rpki.SigMsgDer.decodeSigMsg b with
+  | none => "err"
+  | some m => s!"ok {hexN m.content}"
 
 end Driver.CertShow
